@@ -92,6 +92,11 @@ func errorHandled(f *ssa.Function, errVal ssa.Value) (bool, string) {
 				if !ok {
 					continue
 				}
+				// a test that can only be reached through another test of the same error (`if err != nil &&
+				// !IsNotFound(err) {return}; if err == nil {…}`) sees an error that was already judged there
+				if !firstErrorTest(f, errVal, iff) {
+					continue
+				}
 				errIx := 0
 				if t.Op == token.EQL {
 					errIx = 1
@@ -100,19 +105,16 @@ func errorHandled(f *ssa.Function, errVal ssa.Value) (bool, string) {
 				// fall back into code that reaches a nil-error return
 				tgt := iff.Block().Succs[errIx]
 				okEdge := true
-				for blk := range engine.BlocksReachableFrom(tgt) {
-					if len(blk.Instrs) == 0 {
+				// a nil return is acceptable only behind an explicit classification of this error (true edge of
+				// errors.Is / errors.As / IsErr…(err)): a deliberate "not an error" case
+				classified := classificationEdges(f, errVal)
+				for _, ret := range engine.Returns(f) {
+					lr := engine.LastResult(ret)
+					if lr != nil && !engine.IsNilConst(lr) {
 						continue
 					}
-					if ret, ok := blk.Instrs[len(blk.Instrs)-1].(*ssa.Return); ok {
-						lr := engine.LastResult(ret)
-						if lr == nil || engine.IsNilConst(lr) {
-							// a nil return is acceptable only under an explicit classification of this
-							// error (errors.Is / IsErrNotFound true edge): a deliberate "not an error" case
-							if !classifiedEdge(f, errVal, blk) {
-								okEdge = false
-							}
-						}
+					if engine.ReachesAvoidingFrom(tgt, 0, ret, nil, classified) {
+						okEdge = false
 					}
 				}
 				if okEdge {
@@ -216,6 +218,7 @@ func c03(c *Ctx) {
 	c.flagCase("R03.4")
 	c03writeBeforeAnnounce(c)
 	c03deletedPerMailbox(c)
+	c.chunkAliasing("R03.7")
 }
 
 func (c *Ctx) flagCase(rule string) {
@@ -437,6 +440,62 @@ func lowerCased(v ssa.Value) bool {
 }
 
 // classifiedEdge: blk is dominated by the true edge of errors.Is(err, X) / db.IsErrNotFound(err).
+// firstErrorTest: the nil test `iff` of errVal can be the first such test on some path from the
+// definition of errVal.
+func firstErrorTest(f *ssa.Function, errVal ssa.Value, iff *ssa.If) bool {
+	def, ok := errVal.(ssa.Instruction)
+	if !ok || def.Block() == nil {
+		return true
+	}
+	cut := map[ssa.Instruction]bool{}
+	for _, r := range *errVal.Referrers() {
+		bin, ok := r.(*ssa.BinOp)
+		if !ok || !(engine.IsNilConst(bin.X) || engine.IsNilConst(bin.Y)) {
+			continue
+		}
+		for _, r2 := range *bin.Referrers() {
+			if other, ok := r2.(*ssa.If); ok && other != iff {
+				cut[other] = true
+			}
+		}
+	}
+	if len(cut) == 0 {
+		return true
+	}
+	return engine.ReachesAvoidingFrom(def.Block(), engine.InstrIndex(def)+1, iff, cut, nil)
+}
+
+// classificationEdges: the edges taken when errVal is recognised as a particular error
+// (errors.Is / errors.As / IsErr…(errVal) true, through `!`).
+func classificationEdges(f *ssa.Function, errVal ssa.Value) map[engine.Edge]bool {
+	out := map[engine.Edge]bool{}
+	for _, b := range f.Blocks {
+		iff := engine.IfOf(b)
+		if iff == nil {
+			continue
+		}
+		cond, neg := engine.StripNot(iff.Cond)
+		call, ok := cond.(*ssa.Call)
+		if !ok {
+			continue
+		}
+		sc := call.Call.StaticCallee()
+		if sc == nil || !(engine.ShortName(sc) == "Is" || engine.ShortName(sc) == "As" || strings.HasPrefix(engine.ShortName(sc), "IsErr")) {
+			continue
+		}
+		for _, a := range call.Call.Args {
+			if a == errVal {
+				ix := 0
+				if neg {
+					ix = 1
+				}
+				out[engine.Edge{From: b, Succ: ix}] = true
+			}
+		}
+	}
+	return out
+}
+
 func classifiedEdge(f *ssa.Function, errVal ssa.Value, blk *ssa.BasicBlock) bool {
 	for _, b := range f.Blocks {
 		iff := engine.IfOf(b)
